@@ -1038,6 +1038,8 @@ impl<'a, 'b> Gen<'a, 'b> {
             if self.in_loop { 2 } else { 0 }, // break/continue
             if self.in_fn_ret.is_some() && self.lambda_level == 0 { 1 } else { 0 }, // return
             8,                                // observe the result of a call (lambda, method, trait, generic)
+            if self.profile == Profile::Alloc { 6 } else { 0 }, // forced collection
+            if self.profile == Profile::Alloc && nested_ok { 6 } else { 0 }, // churn loop
         ]);
         match k {
             0 => {
@@ -1247,6 +1249,39 @@ impl<'a, 'b> Gen<'a, 'b> {
                 Some(Stmt::MutCall(self.vars[vi].name.clone(), s, mi, args))
             }
             12 => Some(if self.c.chance(1, 2) { Stmt::Break } else { Stmt::Continue }),
+            15 => Some(Stmt::Raw(if self.c.chance(1, 2) { "std::force_collect();".into() } else { "std::force_minor_collect();".into() })),
+            16 => {
+                // churn: allocate garbage and (sometimes) survivors that old objects point to
+                let n = *self.c.pick(&[50i64, 200, 1000]);
+                let v = self.fresh("i");
+                let mark = self.vars.len();
+                self.vars.push(Var { name: v.clone(), ty: Ty::I64, mutable: false, len: None, level: self.lambda_level });
+                self.depth += 1;
+                let saved = std::mem::replace(&mut self.in_loop, true);
+                let mut body = Block::default();
+                // one allocation of a reference-bearing value per iteration
+                let t = match self.c.below(4) {
+                    0 if !self.p.classes.is_empty() => Ty::Class(self.c.below(self.p.classes.len())),
+                    1 => Ty::Array(Box::new(Ty::I64)),
+                    2 => Ty::Tuple(vec![Ty::Str, Ty::I64]),
+                    _ => Ty::Str,
+                };
+                let e = self.expr(&t);
+                let name = self.fresh("v");
+                body.stmts.push(Stmt::Let(name.clone(), false, t.clone(), e));
+                self.vars.push(Var { name, ty: t, mutable: false, len: None, level: self.lambda_level });
+                if let Some(s) = self.stmt() {
+                    // keep loop bodies free of prints that scale with n
+                    if !matches!(s, Stmt::Print(_) | Stmt::PrintNoNl(_)) {
+                        body.stmts.push(s);
+                    }
+                }
+                self.in_loop = saved;
+                self.depth -= 1;
+                self.vars.truncate(mark);
+                self.feat("churn-loop");
+                Some(Stmt::ForRange(v, Expr::Lit(Lit::I64(0)), Expr::Lit(Lit::I64(n)), body))
+            }
             14 => {
                 let order = [Ty::I64, Ty::I32, Ty::Bool, Ty::Str, Ty::F64, Ty::Char, Ty::U8, Ty::F32];
                 let start = self.c.below(order.len());
